@@ -1,6 +1,7 @@
 """C17: diagnostics depend on catalog content, not on surface encoding or packaging."""
 import copy
 import os
+import re
 import shutil
 import subprocess
 
@@ -47,7 +48,7 @@ def content_catalog(rng, po_only_features=True):
         elif r < 0.4:
             e['msgid'] = '\n' + src
         elif r < 0.5:
-            e['msgstr'] = dst + rng.choice([' \x7f', ' �', ' \x01'])
+            e['msgstr'] = dst + rng.choice([' \x7f', ' �', ' \x01', ' \rx', '\tx', ' a\x0cb', ' \x0bz', ' \x07', 'a\rb\rc'])
         elif r < 0.6:
             # a context (and sometimes a msgid) with non-ASCII text that a diagnostic quotes: decoding differences become visible
             e['msgctxt'] = rng.choice(['menu', 'ctx ąę', 'PÓŁNOC', 'CÓŻ'])
@@ -77,7 +78,7 @@ def content_catalog(rng, po_only_features=True):
             cat['header'] = [(k, v) for (k, v) in cat['header'] if k != f]
         else:
             vals = {'Project-Id-Version': ['PACKAGE VERSION', 'gizmo'], 'Report-Msgid-Bugs-To': ['', 'bugs@localhost', 'x'],
-                    'PO-Revision-Date': ['2012-11-01 14:42', 'YEAR-MO-DA HO:MI+ZONE', '2112-11-01 14:42+0100'], 'POT-Creation-Date': ['1990-01-01 00:00+0000'],
+                    'PO-Revision-Date': ['2012-11-01 14:42', 'YEAR-MO-DA HO:MI+ZONE', '2112-11-01 14:42+0100'], 'POT-Creation-Date': ['1990-01-01 00:00+0000', '2012-11-01 14:42', 'YEAR-MO-DA HO:MI+ZONE', '2112-11-01 14:42+0100', 'garbage'],
                     'Last-Translator': ['FULL NAME <EMAIL@ADDRESS>', 'Jakub'], 'Language-Team': ['Jakub Wilk <jwilk@jwilk.net>', 'none'],
                     'Language': ['pl_PL', 'pol', 'de', 'Polish'], 'MIME-Version': ['1.1'], 'Content-Transfer-Encoding': ['7bit'],
                     'Plural-Forms': ['nplurals=2; plural=n != 1;', 'nplurals=3; plural=n/0;', 'nplurals=4; plural=n%3;']}[f]
@@ -100,6 +101,9 @@ def respell(text, rng, wrap=True, blank=True, octal=True, enc='utf-8'):
             head, _, rest = line.partition('"')
             body = rest[:-1]
             if octal:
+                # control characters written with a named escape by the renderer, written literally here (a lone CR, TAB, FF, VT, BEL, BS inside a string)
+                RAW = {'r': '\r', 't': '\t', 'a': '\x07', 'b': '\x08', 'f': '\x0c', 'v': '\x0b'}
+                body = re.sub(r'(?<!\\)((?:\\\\)*)\\([rtabfv])', lambda m: (m.group(1) + RAW[m.group(2)]) if rng.random() < 0.7 else m.group(0), body)
                 body = ''.join(('\\%03o' * len(ch.encode(enc))) % tuple(ch.encode(enc)) if (ord(ch) > 127 and rng.random() < 0.7) else ch for ch in body)
             if wrap and len(body) > 3 and rng.random() < 0.6:
                 # split at a safe point: not inside an escape sequence
@@ -217,6 +221,21 @@ def job_mo(payload):
                     with open(os.path.join(sub, 'messages.mo'), 'wb') as f:
                         f.write(blob)
                     outs['layout%d' % k] = tags_of(os.path.join(sub, 'messages.mo'))
+                # msgfmt drops POT-Creation-Date; an MO file that KEEPS the field (older msgfmt, other tools) must get the PO file's verdict on it:
+                # only a MISSING POT-Creation-Date is tolerated in MO files
+                import re as _re
+                m = _re.search(r'^"(POT-Creation-Date: [^"\\]*)\\n"$', text, flags=_re.M)
+                if m and kvs and kvs[0][0] == b'' and b'POT-Creation-Date' not in kvs[0][1]:
+                    line = m.group(1).encode('utf-8') + b'\n'
+                    hv = kvs[0][1]
+                    at = hv.find(b'PO-Revision-Date:')
+                    hv2 = hv[:at] + line + hv[at:] if at >= 0 else line + hv
+                    blob, _info = mo_lib.serialise([(b'', hv2)] + kvs[1:], mo_lib.Layout(be=False), lrng)
+                    sub = os.path.join(d, 'withpot')
+                    os.makedirs(sub, exist_ok=True)
+                    with open(os.path.join(sub, 'messages.mo'), 'wb') as f:
+                        f.write(blob)
+                    outs['withpot'] = tags_of(os.path.join(sub, 'messages.mo'))
         except ImportError:
             pass
         res = []
@@ -232,8 +251,12 @@ def job_mo(payload):
         potc = lambda t: bool(t[1]) and str(t[1][0]).startswith('POT-Creation-Date')
         tp_f = [t for t in tp if not potc(t)]
         tm_f = [t for t in tm if not potc(t)]
+        import re as _re2
+        d29 = bool(_re2.search(r'\\x[0-9a-fA-F]{3}', text))
         if sorted(tp_f) != sorted(tm_f):
-            res.append(('po-vs-mo', [t for t in tp_f if t not in tm_f][:3], [t for t in tm_f if t not in tp_f][:3]))
+            res.append(('po-vs-mo' + (':D29' if d29 else ''), [t for t in tp_f if t not in tm_f][:3], [t for t in tm_f if t not in tp_f][:3]))
+        if 'withpot' in outs and sorted(tp) != sorted(outs['withpot']):
+            res.append(('po-vs-mo:mo-keeps-pot-creation-date' + (':D29' if d29 else ''), [t for t in tp if t not in outs['withpot']][:3], [t for t in outs['withpot'] if t not in tp][:3]))
         return ('ok', 4, res)
     except Exception as e:  # noqa
         return ('error', type(e).__name__ + ': ' + str(e)[:200], [])
@@ -394,6 +417,10 @@ def check(ctx):
     if have('msgfmt'):
         n2 = 100 if ctx.quick() else 3000
         payloads2 = [(i, pogen.render(content_catalog(rng, po_only_features=False))) for i in range(n2)]
+        probe = copy.deepcopy(pogen.base_catalog())
+        probe['header_comments'] = []
+        probe['entries'] = [{'msgid': 'hex probe', 'msgstr': 'HEXPROBE'}]
+        payloads2.append((n2, pogen.render(probe).replace('HEXPROBE', 'a\\x0cb')))     # D29: msgfmt reads byte 0xCB, the PO loader FF + "b"
         results2 = common.pmap('harness.c17', 'job_mo', payloads2, per_case_timeout=300)
         for (i, text), r in zip(payloads2, results2):
             if not isinstance(r, tuple):
@@ -406,7 +433,7 @@ def check(ctx):
                 ctx.nontriv(('mo', text))
                 for (name, only_a, only_b) in diffs:
                     ctx.fail('mo-layout' if name.startswith('mo-layout') else 'po-vs-mo', {'variant': name, 'catalog': text[:2500]},
-                             'diagnostics differ: only first %r ; only second %r' % (only_a, only_b))
+                             'diagnostics differ: only first %r ; only second %r' % (only_a, only_b), finding='D29' if name.endswith(':D29') else None)
     # ---- Debian packages
     if have('dpkg-deb'):
         for k in range(4 if ctx.quick() else 60):
